@@ -32,6 +32,7 @@ MEM_CALLS = {
     "memIsValid": ((0,), 1), "memNonZeroSize": ((0,), 1),
 }
 CMP = ("<", "<=", ">", ">=", "==", "!=")
+PROTO_OF = None     # callee name -> function/prototype object with .params (set by the driver)
 
 
 class Types:
@@ -145,31 +146,55 @@ def iv_empty(a):
 
 
 class Env:
-    __slots__ = ("m", "_h")
+    """values of tracked variables / state fields plus linear facts  sum(coef * key) <= const  learnt from tests"""
+    __slots__ = ("m", "facts", "_h")
 
-    def __init__(self, m=()):
+    def __init__(self, m=(), facts=frozenset()):
         self.m = m if isinstance(m, dict) else dict(m)
+        self.facts = facts
         self._h = None
 
     def get(self, k):
         return self.m.get(k)
 
     def set(self, k, v):
+        """refinement or assignment of the value (facts untouched: see kill)"""
         if v is None or v == TOP:
             if k not in self.m:
                 return self
             m = dict(self.m)
             del m[k]
-            return Env(m)
+            return Env(m, self.facts)
         if self.m.get(k) == v:
             return self
         m = dict(self.m)
         m[k] = v
-        return Env(m)
+        return Env(m, self.facts)
+
+    def kill(self, k):
+        """k is about to change: facts that mention it no longer hold"""
+        if not self.facts:
+            return self
+        keep = frozenset(f for f in self.facts if all(t[0] != k for t in f[0]))
+        return self if len(keep) == len(self.facts) else Env(self.m, keep)
+
+    def add_fact(self, terms, const):
+        f = (tuple(sorted(terms.items(), key=repr)), const)
+        if f in self.facts or len(self.facts) >= 12:
+            return self
+        # a stronger fact over the same terms replaces a weaker one
+        fs = set(self.facts)
+        for g in self.facts:
+            if g[0] == f[0]:
+                if g[1] <= const:
+                    return self
+                fs.discard(g)
+        fs.add(f)
+        return Env(self.m, frozenset(fs))
 
     def key(self):
         if self._h is None:
-            self._h = frozenset(self.m.items())
+            self._h = (frozenset(self.m.items()), self.facts)
         return self._h
 
 
@@ -191,11 +216,13 @@ def widen(old, new):
         hi = a[1] if (a[1] is not None and b[1] is not None and a[1] >= b[1]) else None
         if (lo, hi) != TOP:
             m[k] = (lo, hi)
-    return Env(m)
+    return Env(m, old.facts & new.facts)
 
 
 def contains(big, small):
     """every concrete state of small is one of big"""
+    if not big.facts <= small.facts:
+        return False
     for k, a in big.m.items():
         b = small.m.get(k)
         if b is None:
@@ -220,9 +247,15 @@ class Access:
 
 
 class FxAnalyzer:
-    def __init__(self, func, types, cap=CAP, soft=True):
+    def __init__(self, func, types, cap=CAP, soft=True, state_ids=None, entry_fields=None, callee_post=None):
         self.f, self.ty, self.cap = func, types, cap
         self.soft = soft           # use the value range of narrow unsigned types (sound for proofs; never the ground of a report)
+        self.state_ids = state_ids or set()      # variables holding the pointer to the state structure
+        self.entry_fields = entry_fields or {}   # field -> interval assumed at entry (a proved family invariant)
+        self.callee_post = callee_post or {}     # family function -> {field: interval} guaranteed at its exit
+        self.ktype = {}                          # env key -> C type (for the sign of unknown values)
+        self.exit_fields = None                  # field -> hull of its values at the exits and at calls into the family
+        self.exit_seen = False
         self.acc = {}              # (line, text) -> [verdicts..]
         self.detail = {}
         self.param_arr = {}
@@ -245,6 +278,36 @@ class FxAnalyzer:
     def trackable(self, ref):
         return ref.get("rk") in ("local", "param") and ref.get("id") not in self.untracked
 
+    def fkey(self, e):
+        """env key of an integer field of the state structure reached through one of the state pointers"""
+        if not self.state_ids or not isinstance(e, dict):
+            return None
+        while e.get("k") == "Paren":
+            e = e["e"]
+        if e.get("k") != "Member" or not e.get("arrow") or e.get("p") or self.ty.array(e.get("t") or ""):
+            return None
+        b = strip(e["b"])
+        while isinstance(b, dict) and b.get("k") == "Paren":
+            b = strip(b["e"])
+        if not (isinstance(b, dict) and b.get("k") == "Ref" and b.get("id") in self.state_ids):
+            return None
+        if self.ty.sizeof(e.get("t") or "") not in (1, 2, 4, 8):
+            return None
+        k = ("f", e["f"])
+        self.ktype[k] = e.get("t") or ""
+        return k
+
+    def key_of(self, e):
+        """env key of a scalar variable or state field, or None"""
+        if not isinstance(e, dict):
+            return None
+        if e.get("k") == "Ref":
+            if e.get("p") or not self.trackable(e) or self.ty.array(e.get("t") or ""):
+                return None
+            self.ktype[e["id"]] = e.get("t") or ""
+            return e["id"]
+        return self.fkey(e)
+
     def type_range(self, e):
         u = self.ty.urange(e.get("t") or "")
         if u is not None:
@@ -259,6 +322,10 @@ class FxAnalyzer:
             r = TOP
         if isinstance(e, dict) and e.get("k") != "Int":
             tr = self.type_range(e)
+            if tr != TOP and e.get("k") in ("Ref", "Member"):
+                # a stored value is a machine value of that type (possibly widened): meet, do not replace
+                m = iv_meet(r, tr)
+                return tr if iv_empty(m) else m
             if tr != TOP:
                 # the expression has an unsigned type: a mathematical value outside the type wraps, and then only the
                 # type says something about it
@@ -291,6 +358,13 @@ class FxAnalyzer:
                 if v is not None and v[0] != "p":
                     return v
             return TOP
+        if k == "Member":
+            fk = self.fkey(e)
+            if fk is not None:
+                v = env.get(fk)
+                if v is not None:
+                    return v
+            return TOP
         if k == "Un":
             op = e["op"]
             if op == "-":
@@ -319,7 +393,14 @@ class FxAnalyzer:
                 if strip(e["x"]).get("p") or strip(e["y"]).get("p"):
                     return self.ptr_diff(e, env) if op == "-" else TOP
                 a, b = self.ival(e["x"], env), self.ival(e["y"], env)
-                return self.arith(op, a, b)
+                r = self.arith(op, a, b)
+                if op in ("+", "-") and env.facts:
+                    l = self.lin(e)
+                    if l is not None and l[0]:
+                        ub = self.fact_bound(l, env)
+                        if ub is not None and (r[1] is None or ub < r[1]):
+                            r = (r[0], ub)
+                return r
             return TOP
         if k == "Cond":
             c = e.get("c")
@@ -502,8 +583,9 @@ class FxAnalyzer:
             if e.get("p") or self.ty.urange(e.get("t") or "") not in (None, (1 << 64) - 1):
                 return None
             return self.lin(e["e"])
-        if k == "Ref" and not e.get("p") and self.trackable(e) and not self.ty.array(e.get("t") or ""):
-            return ({(e["id"], e.get("t") or ""): 1}, 0)
+        if k in ("Ref", "Member"):
+            key = self.key_of(e)
+            return None if key is None else ({key: 1}, 0)
         if k == "Bin" and e["op"] in ("+", "-"):
             a, b = self.lin(e["x"]), self.lin(e["y"])
             if a is None or b is None:
@@ -518,6 +600,38 @@ class FxAnalyzer:
             if not b[0]:
                 return lin_scale(a, b[1])
         return None
+
+    def lin_safe(self, e, env):
+        """lin(e) if the machine value of e equals the linear form in env: every difference of unsigned operands is
+        known not to wrap (its mathematical lower end is >= 0).  Sums of object lengths/offsets do not wrap
+        (each is <= PTRDIFF_MAX: stated assumption)."""
+        if not isinstance(e, dict):
+            return None
+        for n in walk(e):
+            if n.get("k") == "Bin" and n.get("op") == "-" and not strip(n["x"]).get("p"):
+                if self.ty.is_unsigned(n.get("t") or "") or self.ty.canon(n.get("t") or "") in ("size_t", "unsigned long"):
+                    r = self.arith("-", self.ival(n["x"], env), self.ival(n["y"], env))
+                    lx, ly = self.lin(n["x"]), self.lin(n["y"])
+                    if lx is not None and ly is not None:
+                        lo2 = self.lower(lin_add(lx, lin_scale(ly, -1)), env)
+                        if lo2 is not None and (r[0] is None or lo2 > r[0]):
+                            r = (lo2, r[1])
+                    if r[0] is None or r[0] < 0:
+                        return None
+            if n.get("k") == "Un" and n.get("op") in ("pre++", "pre--", "post++", "post--"):
+                return None
+            if n.get("k") == "Bin" and n.get("op") in ir.ASSIGN_OPS:
+                return None
+        return self.lin(e)
+
+    def lower(self, l, env):
+        """lower bound of a linear form: plain intervals, or -(upper bound of -l) through the facts"""
+        lo = self.plain_eval(l, env)[0]
+        if env.facts:
+            ub = self.fact_bound(lin_scale(l, -1), env)
+            if ub is not None and (lo is None or -ub > lo):
+                lo = -ub
+        return lo
 
     def plin(self, e, env):
         """octet offset of a pointer expression from the start of its array, as a linear form"""
@@ -534,7 +648,7 @@ class FxAnalyzer:
                 return ({}, v[3][0])
             return None
         if k == "Bin" and e["op"] in ("+", "-") and strip(e["x"]).get("p") and not strip(e["y"]).get("p"):
-            a, b = self.plin(e["x"], env), self.lin(e["y"])
+            a, b = self.plin(e["x"], env), self.lin_safe(e["y"], env)
             esz = self.ty.sizeof(self.ty.pointee(self.ptype(e["x"])) or "")
             if a is None or b is None or not esz:
                 return None
@@ -542,13 +656,41 @@ class FxAnalyzer:
         return None
 
     def lin_eval(self, l, env):
+        """interval of a linear form; its upper end also uses the facts"""
         r = (l[1], l[1])
-        for (vid, t), c in l[0].items():
-            v = env.get(vid)
+        for key, c in l[0].items():
+            v = env.get(key)
             if v is None or v[0] == "p":
-                v = (0, None) if self.ty.is_unsigned(t) else TOP
+                v = (0, None) if self.ty.is_unsigned(self.ktype.get(key, "")) else TOP
+            r = iv_add(r, iv_mul(v, (c, c)))
+        if env.facts and l[0]:
+            ub = self.fact_bound(l, env)
+            if ub is not None and (r[1] is None or ub < r[1]):
+                r = (r[0], ub)
+        return r
+
+    def plain_eval(self, l, env):
+        r = (l[1], l[1])
+        for key, c in l[0].items():
+            v = env.get(key)
+            if v is None or v[0] == "p":
+                v = (0, None) if self.ty.is_unsigned(self.ktype.get(key, "")) else TOP
             r = iv_add(r, iv_mul(v, (c, c)))
         return r
+
+    def fact_bound(self, l, env):
+        """upper bound of the linear form from one fact F <= c:  l = F + (l - F) <= c + ub(l - F)"""
+        best = None
+        for terms, c in env.facts:
+            if not any(k in l[0] for k, _ in terms):
+                continue
+            rest = lin_add(l, lin_scale((dict(terms), 0), -1))
+            ub = self.plain_eval(rest, env)[1]
+            if ub is None:
+                continue
+            if best is None or c + ub < best:
+                best = c + ub
+        return best
 
     def ptype(self, e):
         """static type of a pointer expression (outermost cast wins)"""
@@ -608,7 +750,7 @@ class FxAnalyzer:
             spec = MEM_CALLS.get(e.get("callee"))
             if spec and len(e["a"]) > spec[1]:
                 ln = self.ival(e["a"][spec[1]], env)
-                nl = self.lin(e["a"][spec[1]])
+                nl = self.lin_safe(e["a"][spec[1]], env)
                 for pi in spec[0]:
                     p = self.pval(e["a"][pi], env)
                     if p is None:
@@ -677,11 +819,26 @@ class FxAnalyzer:
             return env.set(vid, None)
         if self.ty.array(ref.get("t") or ""):
             return env
+        return self.store(vid, ref, val_e, env, op)
+
+    def store(self, key, lhs, val_e, env, op):
+        """scalar variable or state field `key` := value; facts about its old value go"""
         if op == "=":
             v = self.ival(val_e, env)
         else:
-            v = self.arith(op[:-1], self.ival(ref, env), self.ival(val_e, env))
-        return env.set(vid, self.fit(ref, v))
+            v = self.arith(op[:-1], self.ival(lhs, env), self.ival(val_e, env))
+            if op in ("+=", "-=") and env.facts:
+                # x += e under a fact  x + e <= c
+                l = self.lin_safe({"k": "Bin", "op": op[0], "x": lhs, "y": val_e, "t": lhs.get("t")}, env)
+                if l is not None and l[0]:
+                    ub = self.fact_bound(l, env)
+                    if ub is not None and (v[1] is None or ub < v[1]):
+                        v = (v[0], ub)
+                    lo = self.lower(l, env)
+                    if lo is not None and (v[0] is None or lo > v[0]):
+                        v = (lo, v[1])
+        self.ktype[key] = lhs.get("t") or ""
+        return env.kill(key).set(key, self.fit(lhs, v))
 
     def fit(self, ref, v):
         """a value stored into a variable of unsigned type: out-of-range values wrap, so nothing is known"""
@@ -709,7 +866,62 @@ class FxAnalyzer:
                 return env.set(ref["id"], None)
             return env.set(ref["id"], ("p", cur[1], cur[2], iv_add(cur[3], (d * esz, d * esz))))
         v = iv_add(self.ival(ref, env), (d, d))
-        return env.set(ref["id"], self.fit(ref, v))
+        return env.kill(ref["id"]).set(ref["id"], self.fit(ref, v))
+
+    def call_effects(self, e, env):
+        """a call that receives the state pointer may change every field; a member of the family leaves the fields
+        inside the family invariant (and must be entered with them inside it: recorded like an exit)"""
+        if not self.state_ids:
+            return env
+        whole, single = False, []
+        proto = PROTO_OF(e.get("callee")) if PROTO_OF is not None else None
+        for ai, a in enumerate(e["a"]):
+            if proto is not None and ai < len(proto.params) and proto.params[ai].get("pc"):
+                continue           # pointer to const: the callee does not write through it
+            x = strip(a)
+            while isinstance(x, dict) and x.get("k") == "Paren":
+                x = strip(x["e"])
+            if not isinstance(x, dict):
+                continue
+            if x.get("k") == "Ref" and x.get("id") in self.state_ids:
+                whole = True
+            elif x.get("k") == "Un" and x.get("op") == "&":
+                fk = self.fkey(x["e"])
+                if fk is not None:
+                    single.append(fk)
+        for fk in single:
+            env = env.kill(fk).set(fk, None)
+        if not whole:
+            return env
+        post = self.callee_post.get(e.get("callee"))
+        if post is not None:
+            self.record_exit(env)
+        for k in [k for k in env.m if isinstance(k, tuple) and k[0] == "f"]:
+            env = env.kill(k).set(k, None)
+        for t in list(env.facts):
+            if any(isinstance(k, tuple) for k, _ in t[0]):
+                env = Env(env.m, frozenset(f for f in env.facts if not any(isinstance(k, tuple) for k, _ in f[0])))
+                break
+        if post:
+            for f_, v in post.items():
+                if v is not None and v != TOP:
+                    env = env.set(("f", f_), v)
+        return env
+
+    def record_exit(self, env):
+        cur = {}
+        for k, v in env.m.items():
+            if isinstance(k, tuple) and k[0] == "f":
+                cur[k[1]] = v
+        if self.exit_fields is None:
+            self.exit_fields = dict(cur)
+        else:
+            for f_ in list(self.exit_fields):
+                v = cur.get(f_)
+                if v is None:
+                    del self.exit_fields[f_]
+                else:
+                    self.exit_fields[f_] = iv_hull(self.exit_fields[f_], v)
 
     def effects(self, e, env):
         """env after evaluating e (evaluation order: operands left to right, post-effects last)"""
@@ -723,6 +935,9 @@ class FxAnalyzer:
                 l = l["e"]
             if l.get("k") == "Ref":
                 return self.assign(l, e["y"], env, e["op"])
+            fk = self.fkey(l)
+            if fk is not None:
+                return self.store(fk, l, e["y"], env, e["op"])
             return self.effects(e["x"], env)
         if k == "Un" and e["op"] in ("pre++", "pre--", "post++", "post--"):
             l = e["e"]
@@ -730,6 +945,10 @@ class FxAnalyzer:
                 l = l["e"]
             if l.get("k") == "Ref":
                 return self.incdec(l, e["op"], env)
+            fk = self.fkey(l)
+            if fk is not None:
+                one = {"k": "Int", "v": 1, "t": "int"}
+                return self.store(fk, l, one, env, "+=" if "++" in e["op"] else "-=")
             return self.effects(e["e"], env)
         if k == "Call":
             for a in e["a"]:
@@ -738,9 +957,7 @@ class FxAnalyzer:
                 c = e["a"][0]
                 r = self.assume(c, True, env)
                 return r if r is not None else env
-            if e.get("callee") == "SWAP":
-                return env
-            return env
+            return self.call_effects(e, env)
         if k == "Cond":
             env1 = self.effects(e["c"], env)
             a, b = self.effects(e["x"], env1), self.effects(e["y"], env1)
@@ -784,7 +1001,8 @@ class FxAnalyzer:
         # truth of a scalar: x, x--, --x, x = e
         base, pre, post = self.operand(c)
         env1 = self.effects_list(pre, env)
-        if base is not None and base.get("k") == "Ref" and not base.get("p") and self.trackable(base):
+        bkey = self.key_of(base) if base is not None else None
+        if bkey is not None:
             v = self.ival(base, env1)
             if pol:
                 if v == (0, 0):
@@ -797,7 +1015,7 @@ class FxAnalyzer:
                 if (v[0] is not None and v[0] > 0) or (v[1] is not None and v[1] < 0):
                     return None
                 v = (0, 0)
-            env1 = env1.set(base["id"], v)
+            env1 = env1.set(bkey, v)
             return self.effects_list(post, env1)
         if base is not None:
             v = self.ival(base, env1)
@@ -831,10 +1049,13 @@ class FxAnalyzer:
             l = x["x"]
             while isinstance(l, dict) and l.get("k") in ("Paren", "Cast"):
                 l = l["e"]
-            if l.get("k") == "Ref":
+            if l.get("k") == "Ref" or self.fkey(l) is not None:
                 return l, [x], []
-        if x.get("k") == "Ref":
+        if x.get("k") == "Ref" or self.fkey(x) is not None:
             return x, [], []
+        if not any(n.get("k") == "Call" or (n.get("k") == "Un" and n.get("op", "").endswith(("++", "--"))) or
+                   (n.get("k") == "Bin" and n.get("op") in ir.ASSIGN_OPS) for n in walk(x)):
+            return x, [], []       # no side effects
         return x, [x], []
 
     def effects_list(self, es, env):
@@ -853,12 +1074,13 @@ class FxAnalyzer:
         ly, prey, posty = self.operand(c["y"])
         # an operand with effects that is not a plain variable was evaluated by effects_list: its value is that of
         # the expression in the environment before
-        a = self.ival(lx, env1 if (lx is not None and lx.get("k") == "Ref") else env)
+        a = self.ival(lx, env1 if (lx is not None and (lx.get("k") == "Ref" or self.fkey(lx) is not None)) else env)
         env2 = self.effects_list(prey, env1)
-        b = self.ival(ly, env2 if (ly is not None and ly.get("k") == "Ref") else env1)
+        b = self.ival(ly, env2 if (ly is not None and (ly.get("k") == "Ref" or self.fkey(ly) is not None)) else env1)
+        ex, ey = c["x"], c["y"]
         if op in (">", ">="):
             op = "<" if op == ">" else "<="
-            lx, ly, a, b = ly, lx, b, a
+            lx, ly, a, b, ex, ey = ly, lx, b, a, ey, ex
         na, nb = a, b
         if op == "<":
             na = iv_meet(a, (None, None if b[1] is None else b[1] - 1))
@@ -885,8 +1107,18 @@ class FxAnalyzer:
             return None
         env3 = env2
         for l, v in ((lx, na), (ly, nb)):
-            if l is not None and l.get("k") == "Ref" and not l.get("p") and self.trackable(l) and not self.ty.array(l.get("t") or ""):
-                env3 = env3.set(l["id"], v)
+            key = self.key_of(l) if l is not None else None
+            if key is not None:
+                env3 = env3.set(key, v)
+        if not (prex or prey or postx or posty) and op in ("<", "<=", "=="):
+            l1, l2 = self.lin_safe(ex, env2), self.lin_safe(ey, env2)
+            if l1 is not None and l2 is not None and len(set(l1[0]) | set(l2[0])) >= 2:
+                d = lin_add(l1, lin_scale(l2, -1))
+                if d[0] and len(d[0]) <= 4:
+                    env3 = env3.add_fact(d[0], -d[1] - (1 if op == "<" else 0))
+                    if op == "==":
+                        d2 = lin_scale(d, -1)
+                        env3 = env3.add_fact(d2[0], -d2[1])
         return self.effects_list(postx + posty, env3)
 
     # ---- fixpoint, one state per node (join at merges, widening at loop heads, two narrowing sweeps)
@@ -945,12 +1177,18 @@ class FxAnalyzer:
         if kind == "return":
             if check and node.e is not None:
                 self.check_expr(node.e, env, node.line)
+            if check and self.state_ids:
+                self.record_exit(env)
             return [(s, env) for _, s in node.succ]
         return []
 
     def entry_env(self):
-        return Env({p["id"]: ("p", "param:%s" % p["n"], self.param_arr[p["id"]], (0, 0))
-                    for p in self.f.params if p["id"] in self.param_arr and p["id"] not in self.untracked})
+        m = {p["id"]: ("p", "param:%s" % p["n"], self.param_arr[p["id"]], (0, 0))
+             for p in self.f.params if p["id"] in self.param_arr and p["id"] not in self.untracked}
+        for f_, v in self.entry_fields.items():
+            if v is not None and v != TOP:
+                m[("f", f_)] = v
+        return Env(m)
 
     def loop_heads(self, cfg):
         """(targets of DFS back edges, reverse postorder)"""
@@ -1044,8 +1282,7 @@ class FxAnalyzer:
     def run(self):
         cfg = self.f.cfg()
         heads, _ = self.loop_heads(cfg)
-        env0 = Env({p["id"]: ("p", "param:%s" % p["n"], self.param_arr[p["id"]], (0, 0))
-                    for p in self.f.params if p["id"] in self.param_arr and p["id"] not in self.untracked})
+        env0 = self.entry_env()
         at = {}            # node id -> {key: env}
         summary = {}       # node id -> widened env
         work = [(cfg.entry.id, env0)]
@@ -1107,6 +1344,8 @@ class FxAnalyzer:
             elif kind == "return":
                 if node.e is not None:
                     self.check_expr(node.e, env, node.line)
+                if self.state_ids:
+                    self.record_exit(env)
                 outs = [(s, env) for _, s in node.succ]
             for s, e2 in outs:
                 sid = s.id
@@ -1163,7 +1402,7 @@ def join(a, b):
         h = iv_hull(x, y)
         if h != TOP:
             m[k] = h
-    return Env(m)
+    return Env(m, a.facts & b.facts)
 
 
 widen_join = join
